@@ -1,51 +1,7 @@
-mod c01;
-mod c04;
-mod c09;
-mod c02;
-mod c14;
-mod c16;
-mod cjs;
-mod cpair;
-mod csem;
-mod compile;
-mod den;
-mod htree;
-mod jsval;
-mod member;
-mod proc;
-mod render;
-mod runner;
+use beffv::{c01, check_by_id, compile, proc, runner, src};
 #[cfg(feature = "engine")]
-mod sem;
-mod src;
-
-use runner::{Check, Tier};
-use std::sync::Arc;
-
-fn check_by_id(id: &str) -> Option<Arc<dyn Check>> {
-    Some(match id {
-        "C01" => Arc::new(c01::C01),
-        "C03" => Arc::new(cjs::C03),
-        "C04" => Arc::new(c04::C04),
-        #[cfg(feature = "engine")]
-        "C05" => Arc::new(csem::C05),
-        #[cfg(feature = "engine")]
-        "C06" => Arc::new(csem::C06),
-        #[cfg(feature = "engine")]
-        "C07" => Arc::new(csem::C07),
-        "C08" => Arc::new(cpair::C08),
-        "C09" => Arc::new(c09::C09),
-        "C10" => Arc::new(c09::C10),
-        "C11" => Arc::new(cjs::C11),
-        "C13" => Arc::new(cpair::C13),
-        "C14" => Arc::new(c14::C14),
-        "C02" => Arc::new(c02::C02),
-        "C16" => Arc::new(c16::C16),
-        "C15" => Arc::new(cpair::C15),
-        "C12" => Arc::new(cjs::C12),
-        _ => return None,
-    })
-}
+use beffv::sem;
+use runner::Tier;
 
 fn main() {
     compile::install_panic_hook();
